@@ -348,7 +348,10 @@ def _remap_nodes(node, idmap, nodes, parent, par=None):
 
 def load(view="release", verbose=False):
     paths, h = TU.extract(views=(view,), verbose=verbose)
-    pk = os.path.join(TU.CACHE, h, "program.%s.pickle" % view)
+    import hashlib
+    with open(os.path.abspath(__file__), "rb") as f:
+        lh = hashlib.sha256(f.read()).hexdigest()[:10]
+    pk = os.path.join(TU.CACHE, h, "program.%s.%s.pickle" % (view, lh))
     sys.setrecursionlimit(100000)
     if os.path.exists(pk):
         try:
@@ -370,6 +373,9 @@ def load(view="release", verbose=False):
         for d in data["decls"]:
             usr = d.get("usr")
             key = usr if usr else "%s#%d" % (name, d["id"])
+            old = P.decls.get(key)
+            if usr and old is not None and d.get("hasbody") and old.get("hasbody") and old.get("file") != d.get("file"):
+                key = "%s@%s" % (usr, name)     # e.g. the two applications' main()
             idmap[d["id"]] = key
         for d in data["decls"]:
             key = idmap[d["id"]]
